@@ -101,6 +101,27 @@ def _schema(path, mode="percall"):
         conn.close()
 
 
+def _raw_reference(path, sources_kind):
+    import glob
+    import importlib
+    import re
+    conn = sqlite3.connect(path)
+    versions = []
+    try:
+        for pkg_name, mod in _sources(sources_kind):
+            d = list(importlib.import_module(mod).__path__)[0]
+            for f in sorted(glob.glob(os.path.join(d, "*.sql"))):
+                text = open(f).read()
+                m = re.search(r"--\s*migration:\s*(\d+)", text.splitlines()[0] if text else "")
+                conn.executescript(text)
+                versions.append((pkg_name, int(m.group(1)) if m else len(versions) + 1))
+        conn.commit()
+    finally:
+        conn.close()
+    sc = _schema(path)
+    return {"objects": sc["objects"], "versions": sorted(versions)}
+
+
 def _open(path, mode):
     if mode == "single":
         from llama_agents.server._store.sqlite.sqlite_workflow_store import SqliteWorkflowStore
@@ -204,6 +225,15 @@ def run_indexed(idx, tape):
             return {"violations": violations, "harness": None, "nontrivial": False, "shape": case, "faults": faults, "probes": probes,
                     "sim_time": 0.0, "steps": 0, "digest": case, "evals": 1}
         ref = _schema(tdr.db("ref.db"), mode)
+        # independent reference: the shipped .sql scripts of every source executed raw, in file order, on an empty database; the
+        # runner's fresh result must have exactly those objects and one bookkeeping row per (package, script)
+        raw = _raw_reference(tdr.db("raw.db"), sources)
+        objs = [o for o in ref["objects"] if o[1] != "schema_migrations" and "schema_migrations" not in str(o[1])]
+        if objs != raw["objects"] or sorted(map(tuple, ref["versions"] or [])) != raw["versions"]:
+            missing = [o[:2] for o in raw["objects"] if o not in objs]
+            extra = [o[:2] for o in objs if o not in raw["objects"]]
+            violate("C28.schema-diff", f"a fresh migration does not equal the shipped scripts executed in order: missing {missing[:4]}, extra {extra[:4]}; "
+                    f"bookkeeping rows {ref['versions']} vs expected {raw['versions']}", crash=False, start="fresh-vs-scripts")
         # signatures of every enumerated (in-scope) state, to classify crash images
         n_files = len(_server_files())
         in_scope = [_sig(ref)]
